@@ -277,13 +277,15 @@ fn plan_for(prop: &str, thorough: bool) -> Plan {
             rule: "random combinator / builder-chain / async-script expression x random resolve/drop/abort history on the command itself; non-trivial = at least 3 steps, 2 effects and 1 event; distinct = hash of (program, history)",
         },
         "C05" => Plan {
-            setups: vec![(Setup::AllTyped, 5), (Setup::AllWithBridges, 5), (Setup::Nested, 2), (Setup::LegacyLockstep, 3), (Setup::Mixed, 2)],
-            gen: base,
+            // (the last two: programs whose emitted events make `update` return follow-up programs,
+            // which only a core can host - typed core and the four bridges against the model)
+            setups: vec![(Setup::AllTyped, 5), (Setup::AllWithBridges, 5), (Setup::Nested, 2), (Setup::LegacyLockstep, 3), (Setup::Mixed, 2), (Setup::Bridges, 2), (Setup::CoreD, 1)],
+            gen: GenCfg { event_then: true, ..base },
             steps,
             cases: (15_000, 3_000_000),
             fu_per_mille: 0,
             max_layers: if thorough { 10 } else { 6 },
-            rule: "one program and one history on up to 8 hosts in lock-step (direct, stream-polled, 1-10 neutral wrapper layers, Core via both macros, bincode and JSON bridges); non-trivial = at least 3 steps, 2 effects and 1 event; distinct = hash of (program, history)",
+            rule: "one program and one history on up to 8 hosts in lock-step (direct, stream-polled, 1-10 neutral wrapper layers, Core via both macros, bincode and JSON bridges; programs with follow-up programs returned by update on the typed core and the four bridges); non-trivial = at least 3 steps, 2 effects and 1 event; distinct = hash of (program, history)",
         },
         "C06" => Plan {
             setups: vec![(Setup::DirectM, 4), (Setup::StreamM, 2), (Setup::StreamLag, 2), (Setup::DirectLag, 2), (Setup::EagerM, 1), (Setup::AllTyped, 3)],
